@@ -1,5 +1,11 @@
-(* C20  Half-rate decoding halves the sample count and keeps positions truthful. *)
-From VV Require Import Blocking Blocking_lemmas VFile VFile_lemmas Term_lemmas VFileDemo.
+(* C20  Half-rate decoding halves the sample count and keeps positions truthful.
+   Besides the count (ceil(N/2) per link, Blocking.v) and the bookkeeping facts below, SeekH_lemmas.v redoes
+   the synchronisation and seek proofs of C07 with the half-rate flag set: linear reading of intact packets
+   delivers half the block step per packet and advances the position by two per sample; ov_pcm_seek on an
+   intact run reports a position at or below the target, less than one output sample below it, and truthful. *)
+From VV Require Import Blocking Blocking_lemmas VFile VFile_lemmas Term_lemmas VFileDemo Sync_lemmas Seek_lemmas SeekH_lemmas.
+From Coq Require Import List.
+Import ListNotations.
 From Coq Require Import ZArith Lia.
 Local Open Scope Z_scope.
 
@@ -43,6 +49,45 @@ Theorem C20_half_rate_seek_within_one_sample :
   forall s pos, v_hs s = 1 -> fst (pcm_seek s pos) = 0 -> pos - 2 < v_pcm (snd (pcm_seek s pos)).
 Proof. intros s pos Hh H. pose proof (pcm_seek_not_short s pos ltac:(lia) H) as B. rewrite Hh in B. exact B. Qed.
 Print Assumptions C20_half_rate_seek_within_one_sample.
+
+(* half rate, any number of intact packets of a link: each delivers half its block step, the position advances
+   by two per sample delivered, and the handle stays in sync *)
+Theorem C20_half_rate_linear_read_truthful :
+  forall ps s here, SyncInvH s here -> intact_seq_h s here ps ->
+    let '(s', ns) := run_link_h s ps in
+    let total := fold_right Z.add 0 ns in
+    SyncInvH s' (here + 2 * total) /\ v_pcm s' = v_pcm s + 2 * total /\ Forall (fun n => 0 <= n) ns.
+Proof. exact linear_read_sync_h. Qed.
+Print Assumptions C20_half_rate_linear_read_truthful.
+
+(* half rate, sample seek on an intact run *)
+Theorem C20_half_rate_seek_truthful_on_intact_run :
+  forall (tail : list page) s pos s1,
+    v_hs s = 1 -> OPENED <= v_rs s <= INITSET ->
+    pcm_seek_page s pos = (0, s1) -> fallback s pos = false -> FileIntactH tail s1 pos ->
+    fst (pcm_seek s pos) = 0 /\ TruthfulH tail (snd (pcm_seek s pos)) pos /\ pos - 2 < v_pcm (snd (pcm_seek s pos)) <= pos.
+Proof. exact pcm_seek_intact_h. Qed.
+Print Assumptions C20_half_rate_seek_truthful_on_intact_run.
+
+Theorem C20_half_rate_seek_checked :
+  forall s pos, seek_hyps_h s pos = true ->
+    fst (pcm_seek s pos) = 0 /\ pos - 2 < v_pcm (snd (pcm_seek s pos)) <= pos /\
+    TruthfulH (auto_tail (snd (pcm_seek_page s pos))) (snd (pcm_seek s pos)) pos.
+Proof. exact pcm_seek_checked_h. Qed.
+Print Assumptions C20_half_rate_seek_checked.
+
+Theorem C20_truthful_pending_half_rate :
+  forall (tail : list page) s pos, NReadyH tail s pos ->
+    exists e, v_pcm s = base_of s (v_link s) + e /\
+      let '(n, s2) := drainH s in 0 <= n /\ SyncInvH s2 (e + 2 * n) /\ v_pcm s2 = v_pcm s + 2 * n.
+Proof. exact nready_drain_h. Qed.
+Print Assumptions C20_truthful_pending_half_rate.
+
+(* non-vacuity: the half-rate demo link: the hypotheses hold for every target up to the last granule position
+   before the final page, and the seek lands on the even position at or below the target *)
+Example C20_seek_hyps_nonvacuous :
+  forallb (fun k => seek_hyps_h demo3 (Z.of_nat k) && (v_pcm (snd (pcm_seek demo3 (Z.of_nat k))) =? 2 * (Z.of_nat k / 2))) (seq 0 2689) = true.
+Proof. vm_compute. reflexivity. Qed.
 
 Example C20_demo_refused : fst (halfrate demo true) = OV_EINVAL_.
 Proof. vm_compute. reflexivity. Qed.
